@@ -116,6 +116,9 @@ class Engine:
         self.stats = Stats()
         self.max_paths = max_paths
         self.unsupported = []
+        self.t_start = None
+        # a single case that keeps the solver busy this long is reported as inconclusive (10 x the per-query limit)
+        self.case_budget_s = max(600, timeout_ms // 100)
         import os as _os
         try:
             self.cross_budget = int(_os.environ.get("VERIF_CROSSCHECK", "2"))
@@ -127,6 +130,10 @@ class Engine:
     def solve(self, constraints, want_model=False, timeout_ms=None, is_assertion=False):
         """One fresh solver per query.  Returns ('sat', model) / ('unsat', None).
         Raises Inconclusive on unknown."""
+        if self.t_start is None:
+            self.t_start = time.time()
+        elif time.time() - self.t_start > self.case_budget_s:
+            raise Inconclusive("time budget of this case (%d s) exhausted" % self.case_budget_s)
         s = z3.SolverFor(self.logic)
         s.set("timeout", int(timeout_ms or self.timeout_ms))
         for c in constraints:
